@@ -50,7 +50,6 @@ static int doesCgroupEntryContainController (char const * const cgroupEntry, cha
 
 int snoopy_datasource_cgroup (char * const resultBuf, size_t resultBufSize, char const * const arg)
 {
-    int myPid;
     char   procPidCgroupFilePath[PROC_PID_CGROUP_PATH_SIZE_MAX];
     char * procPidCgroupContent = NULL;
 
@@ -65,9 +64,8 @@ int snoopy_datasource_cgroup (char * const resultBuf, size_t resultBufSize, char
     }
 
 
-    // Generate /proc/PID/cgroup path
-    myPid = getpid();
-    snprintf(procPidCgroupFilePath, PROC_PID_CGROUP_PATH_SIZE_MAX, "/proc/%d/cgroup", myPid);
+    // Generate the cgroup file path (via "self": our getpid() number may denote another process in the procfs instance mounted at /proc)
+    snprintf(procPidCgroupFilePath, PROC_PID_CGROUP_PATH_SIZE_MAX, "/proc/self/cgroup");
 
 
     // Get the cgroup info content
